@@ -17,7 +17,7 @@ Definition check (c : case) : bool :=
   | CSig name param ret =>
       existsb (fun sg => String.eqb (s_name sg) name && N.eqb (s_param sg) param && N.eqb (s_return sg) ret) sigs
   | CZip its impl =>
-      match multizip (S (S (min_len its))) its with
+      match zip_all (S (S (min_len its))) its with
       | Some r => value_eqb (VArr (map VArr r)) (VArr (map VArr impl))
       | None => false
       end
@@ -27,5 +27,5 @@ Definition model_out (c : case) :=
   match c with
   | CCall name v _ => F_inst (nm name) [v]
   | CSig _ _ _ => None
-  | CZip its _ => match multizip (S (S (min_len its))) its with Some r => Some (VArr (map VArr r)) | None => None end
+  | CZip its _ => match zip_all (S (S (min_len its))) its with Some r => Some (VArr (map VArr r)) | None => None end
   end.
